@@ -404,3 +404,99 @@ def strict_int_guarded(g: Graph, n: Node, ic: ast.Call) -> bool:
         return bool(edges) and n.id not in g.reach([g.entry.id], blocked_edges=edges)
 
     return must_pass(("isascii",)) and must_pass(("isdigit", "isdecimal"))
+
+
+_TYPE_CONVERSIONS = {"Path", "list", "set", "tuple", "frozenset", "int", "float", "str", "bool", "dict"}
+
+
+def config_fields_carrier(chk: Check, R: str, prefixes: tuple[str, ...], what: str, consequence: str) -> None:
+    """ServerConfig is a carrier between the file / CLI and the running server:
+    what was configured is what is enforced.  No method of the class
+    (`__post_init__` included) stores into a security setting anything but the
+    setting itself or a type conversion of it (Path(x), list(x), float(x) ...)."""
+    from ..flow import Defs, _Sel, origins
+
+    chk.rule(R, f"the configured {what} reach the running server as written: no method of ServerConfig stores into those fields anything but the field itself or a type conversion of it")
+    ci = chk.proj.cls("server.config:ServerConfig")
+
+    def identity(e: ast.AST, fld: str) -> bool:
+        if isinstance(e, ast.IfExp):
+            return identity(e.body, fld) and identity(e.orelse, fld)
+        while isinstance(e, ast.Call) and (dotted(e.func) or "").split(".")[-1] in _TYPE_CONVERSIONS and len(e.args) == 1 and not e.keywords:
+            e = e.args[0]
+        return dotted(e) == f"self.{fld}"
+
+    n_methods = n_stores = 0
+    ok = True
+    for m in ci.methods.values():
+        n_methods += 1
+        stores = []
+        for st in walk(m.node):
+            if isinstance(st, (ast.Assign, ast.AnnAssign, ast.AugAssign)):
+                tgts = st.targets if isinstance(st, ast.Assign) else [st.target]
+                for t in tgts:
+                    for tt in (t.elts if isinstance(t, (ast.Tuple, ast.List)) else [t]):
+                        if isinstance(tt, ast.Attribute) and dotted(tt.value) == "self" and tt.attr.startswith(prefixes):
+                            stores.append((tt.attr, None if isinstance(st, ast.AugAssign) else st.value, st))
+            elif isinstance(st, ast.Call) and method_call(st) and method_call(st)[1] in ("append", "extend", "remove", "clear", "pop", "insert", "discard", "add", "update", "sort") and (dotted(method_call(st)[0]) or "").startswith("self.") and (dotted(method_call(st)[0]) or "")[5:].startswith(prefixes):
+                stores.append(((dotted(method_call(st)[0]) or "")[5:], None, st))
+        if not stores:
+            continue
+        g = build_cfg(chk.proj, m)
+        defs = Defs(g)
+        for fld, val, st in stores:
+            n_stores += 1
+            node = next((x for x in g.nodes if x.ast is not None and any(y is st for y in ast.walk(x.ast))), None)
+            leaves = [(None, val)] if node is None or val is None else origins(defs, node, val)
+            bad = [le for _n, le in leaves if le is None or isinstance(le, _Sel) or not identity(le, fld)]
+            if bad:
+                ok = False
+                chk.finding(
+                    R, m.key, f"config-field-rewritten:{fld}",
+                    f"`{norm(st)[:90]}` rewrites the configured `{fld}` inside ServerConfig: the running server enforces another value than the one written in the configuration, so {consequence}",
+                    m.loc(st),
+                )
+    chk.floor(R, "ServerConfig methods inspected", n_methods, 1)
+    chk.ob(R, f"{ci.key}: no method rewrites {'/'.join(p + '*' for p in prefixes)}", ok, f"{n_methods} methods, {n_stores} stores", evals=n_methods)
+
+
+def config_presence_tests(chk: Check, R: str, only: tuple[str, ...] = ()) -> None:
+    """`if access_control_config:` in start_server means "a policy was given".
+    Plain dataclass instances are always truthy; a config class that defines
+    __len__ / __bool__ is falsy while it has no list entries - exactly the
+    "deny everybody by default" policy - and the middleware is then not installed."""
+    chk.rule(R, "presence tests of configuration objects mean presence: a class whose instances start_server tests for truthiness defines no __len__ / __bool__ (or the test is `is not None`)")
+    fi = chk.proj.func("server.server:start_server")
+    ann = {}
+    a = fi.node.args
+    for x in a.args + a.kwonlyargs:
+        if x.annotation is not None:
+            names = [n.id for n in ast.walk(x.annotation) if isinstance(n, ast.Name)] + [n.attr for n in ast.walk(x.annotation) if isinstance(n, ast.Attribute)]
+            ann[x.arg] = names
+    g = build_cfg(chk.proj, fi)
+    tested = {}
+    for t in g.nodes:
+        if t.kind == "test" and t.ast is not None:
+            e = t.ast
+            while isinstance(e, ast.UnaryOp) and isinstance(e.op, ast.Not):
+                e = e.operand
+            if isinstance(e, ast.Name) and e.id in ann:
+                tested.setdefault(e.id, t)
+    n = 0
+    ok = True
+    for param, t in sorted(tested.items()):
+        for cname in ann[param]:
+            for c2 in chk.proj.classes.values():
+                if c2.name != cname or (only and cname not in only):
+                    continue
+                n += 1
+                special = [mn for mn in ("__len__", "__bool__") if mn in c2.methods]
+                if special:
+                    ok = False
+                    chk.finding(
+                        R, c2.key, f"falsy-config:{special[0]}",
+                        f"{c2.name} defines {special[0]}, so a configured policy without list entries (e.g. `default_allow = false` alone) is falsy; start_server decides whether to install the middleware with `if {param}:` and then runs without it: every request is admitted",
+                        t.where(),
+                    )
+                chk.ob(R, f"start_server: `if {param}` on {c2.name} means presence", not special)
+    chk.ob(R, "truthiness tests of configuration objects examined", True, f"{len(tested)} tested parameters, {n} classes", nontrivial=False)
